@@ -9,7 +9,7 @@ detail/dijkstra.hpp, parmcb_approx_sva_*.hpp):
   one endpoint, walk the predecessor edges back from the other endpoint, append the edge  →  returned weight.
 
 `parmcb::dijkstra` is modelled literally with one `FrontierP` (labels, predecessor records, heap as "a queued vertex of
-minimum label chosen by `pick`"); the exact phase is any of the end-to-end models of `Model/SignedAlgo.lean` /
+minimum label chosen by `pick`", one step-indexed oracle `pickD e` per dropped edge `e`); the exact phase is any of the end-to-end models of `Model/SignedAlgo.lean` /
 `Model/TreesAlgo.lean` applied to the spanner graph.  The TBB builder pushes the cycles of the dropped edges into a
 concurrent vector: their order in the output is an arbitrary permutation (`pushOrder`), and the weights are reduced under
 an arbitrary schedule.  Core Lean only.
@@ -28,18 +28,18 @@ def dijkScan (u : Nat) (du : Int) : List (Nat × Int × Nat) → FrontierP → F
   | (w, c, e) :: r, f => dijkScan u du r (f.update w (du + c) u e)
 
 /-- `while (!queue.empty()) { u = top; pop; scan }` -/
-def dijkLoop (adjE : Array (List (Nat × Int × Nat))) (pick : List Nat → Nat) : Nat → FrontierP → FrontierP
+def dijkLoop (adjE : Array (List (Nat × Int × Nat))) (pick : Pick) : Nat → FrontierP → FrontierP
   | 0, f => f
   | fuel + 1, f =>
     if f.queue.isEmpty then f
     else
-      let u := pick f.toF.minNodes
+      let u := pick fuel f.toF.minNodes
       match f.dist[u]! with
       | none => f
       | some du => dijkLoop adjE pick fuel (dijkScan u du adjE[u]! { f with queue := f.queue.erase u })
 
 /-- `parmcb::dijkstra(g, weight, s, dist_map, pred_map)` -/
-def dijkstraP (g : Graph) (pick : List Nat → Nat) (s : Nat) : FrontierP :=
+def dijkstraP (g : Graph) (pick : Pick) (s : Nat) : FrontierP :=
   dijkLoop (plainAdjE g) pick (g.n + 1) (FrontierP.init g.n s)
 
 /-- "form cycle": from `w` follow the predecessor edges while there is one; edges in the order they are pushed -/
@@ -52,7 +52,7 @@ def pathBack (f : FrontierP) : Nat → Nat → List Nat
       | some (u, e) => e :: pathBack f fuel u
 
 /-- the cycle of one dropped edge `e` (edge ids of the caller's graph; `R` = `_edge_spanner_to_g`) and its weight -/
-def nonSpannerCycle (g : Graph) (R : List Nat) (pick : List Nat → Nat) (e : Nat) : List Nat × Int :=
+def nonSpannerCycle (g : Graph) (R : List Nat) (pick : Pick) (e : Nat) : List Nat × Int :=
   let sp := spannerGraph g R
   let f := dijkstraP sp pick (g.src e)
   let path := (pathBack f (g.n + 1) (g.tgt e)).map fun i => R.getD i 0
@@ -61,52 +61,52 @@ def nonSpannerCycle (g : Graph) (R : List Nat) (pick : List Nat → Nat) (e : Na
 
 /-- `BaseApproxSpannerAlgorithm::run` (sequential builder).  `exact sp` = the exact algorithm on the spanner graph
 (cycles in the spanner's own edge numbering = positions in `R`).  Emitted cycles are canonical edge sets of `g`. -/
-def approxCore (g : Graph) (k : Nat) (scan : List Nat) (exact : Graph → McbResult) (pickD : List Nat → Nat) : ApproxOutcome :=
+def approxCore (g : Graph) (k : Nat) (scan : List Nat) (exact : Graph → McbResult) (pickD : Nat → Pick) : ApproxOutcome :=
   if k < 1 then .error
   else
     let RD := constructSpanner g k scan
     let ex := exact (spannerGraph g RD.1)
     let translated := translateBack RD.1 ex.cycles
-    let extra := RD.2.map (nonSpannerCycle g RD.1 pickD)
+    let extra := RD.2.map fun e => nonSpannerCycle g RD.1 (pickD e) e
     .ok (translated ++ extra.map fun p => setOf p.1) (ex.weight + (extra.map (·.2)).foldl (· + ·) 0)
 
 /-- the TBB builder: the dropped edges' cycles arrive in the order `pushOrder` (positions in the dropped list), the
 weights are summed under the schedule `s` -/
-def approxCoreTbb (g : Graph) (k : Nat) (scan : List Nat) (exact : Graph → McbResult) (pickD : List Nat → Nat)
+def approxCoreTbb (g : Graph) (k : Nat) (scan : List Nat) (exact : Graph → McbResult) (pickD : Nat → Pick)
     (pushOrder : List Nat) (s : Sched) : ApproxOutcome :=
   if k < 1 then .error
   else
     let RD := constructSpanner g k scan
     let ex := exact (spannerGraph g RD.1)
     let translated := translateBack RD.1 ex.cycles
-    let extra := pushOrder.map fun i => nonSpannerCycle g RD.1 pickD (RD.2.getD i 0)
+    let extra := pushOrder.map fun i => nonSpannerCycle g RD.1 (pickD (RD.2.getD i 0)) (RD.2.getD i 0)
     .ok (translated ++ extra.map fun p => setOf p.1) (ex.weight + reduceSum (fun i => (extra.getD i ([], 0)).2) s)
 
 /-! ### the six entry points -/
 
-def approxSigned (g : Graph) (k : Nat) (scan order : List Nat) (pick : List Nat → Nat) (σ : Nat → List Nat → List Nat)
-    (pickD : List Nat → Nat) : ApproxOutcome :=
+def approxSigned (g : Graph) (k : Nat) (scan order : List Nat) (pick : Nat → PickFam) (σ : Nat → List Nat → List Nat)
+    (pickD : Nat → Pick) : ApproxOutcome :=
   approxCore g k scan (fun sp => mcbSigned sp order pick σ) pickD
 
 def approxFvsTrees (g : Graph) (k : Nat) (scan order picks : List Nat) (sorter : List Cand → List Cand)
-    (pickD : List Nat → Nat) : ApproxOutcome :=
+    (pickD : Nat → Pick) : ApproxOutcome :=
   approxCore g k scan (fun sp => mcbFvsTrees sp order picks sorter) pickD
 
 def approxIsoTrees (g : Graph) (k : Nat) (scan order : List Nat) (sorter : List Cand → List Cand)
-    (pickD : List Nat → Nat) : ApproxOutcome :=
+    (pickD : Nat → Pick) : ApproxOutcome :=
   approxCore g k scan (fun sp => mcbIsoTrees sp order sorter) pickD
 
-def approxSignedTbb (g : Graph) (k : Nat) (scan order : List Nat) (pick : List Nat → Nat) (σ : Nat → List Nat → List Nat)
-    (perm : List Nat) (scheds : Nat → List Nat → Sched) (pickD : List Nat → Nat) (pushOrder : List Nat) (s : Sched) :
+def approxSignedTbb (g : Graph) (k : Nat) (scan order : List Nat) (pick : Nat → PickFam) (σ : Nat → List Nat → List Nat)
+    (perm : List Nat) (scheds : Nat → List Nat → Sched) (pickD : Nat → Pick) (pushOrder : List Nat) (s : Sched) :
     ApproxOutcome :=
   approxCoreTbb g k scan (fun sp => mcbSignedTbb sp order pick σ perm scheds) pickD pushOrder s
 
 def approxFvsTreesTbb (g : Graph) (k : Nat) (scan order picks : List Nat) (sorter : List Cand → List Cand)
-    (scheds : Nat → Sched) (pickD : List Nat → Nat) (pushOrder : List Nat) (s : Sched) : ApproxOutcome :=
+    (scheds : Nat → Sched) (pickD : Nat → Pick) (pushOrder : List Nat) (s : Sched) : ApproxOutcome :=
   approxCoreTbb g k scan (fun sp => mcbFvsTreesTbb sp order picks sorter scheds) pickD pushOrder s
 
 def approxIsoTreesTbb (g : Graph) (k : Nat) (scan order : List Nat) (sorter : List Cand → List Cand)
-    (scheds : Nat → Sched) (pickD : List Nat → Nat) (pushOrder : List Nat) (s : Sched) : ApproxOutcome :=
+    (scheds : Nat → Sched) (pickD : Nat → Pick) (pushOrder : List Nat) (s : Sched) : ApproxOutcome :=
   approxCoreTbb g k scan (fun sp => mcbIsoTreesTbb sp order sorter scheds) pickD pushOrder s
 
 end Parmcb
